@@ -1,16 +1,20 @@
 -------------------------- MODULE MultiRoundTripMC --------------------------
 (* Bounded configurations of MultiRoundTrip (extension check X01).            *)
-(*  MultiRoundTrip_mc.cfg     exhaustive, the code's limits (10 / 3), two ids, *)
-(*                            every input-request map, all four client modes,  *)
-(*                            one call of the three methods or of another one  *)
-(*  MultiRoundTrip_mc2.cfg    two consecutive calls, limits 4 / 2              *)
-(*  MultiRoundTrip_live.cfg   termination under weak fairness, limits 4 / 2    *)
+(*  MultiRoundTrip_mc.cfg     exhaustive: the code's limits (10 / 3), ids      *)
+(*                            {a,b}, every input-request map, all four client  *)
+(*                            modes, two calls of the three methods or of      *)
+(*                            another one, two retries by the application      *)
+(*  MultiRoundTrip_mc3.cfg    the same with ids {a,b,c}, one call (thorough)   *)
+(*  MultiRoundTrip_live.cfg   termination under weak fairness, limits 3 / 2    *)
+(*                            (no VIEW)                                        *)
 (*  MultiRoundTrip_cover.cfg  the graph handed to tools/graphwalk.py: limits   *)
 (*                            3 / 2 and a representative set of maps; its      *)
 (*                            paths are turned into environment scripts        *)
 (*                            (handler results, client handler results and     *)
 (*                            their order) that the Go harness plays against   *)
 (*                            the real client and server                       *)
+(*  MultiRoundTrip_sim.cfg    (module MultiRoundTripGen) seeded simulation     *)
+(*                            with the code's limits, ids {a,b,c}, two calls   *)
 EXTENDS MultiRoundTrip
 
 \* representative maps for behaviour generation: load shedding, each kind alone, mixed pairs, same kind twice
